@@ -89,4 +89,71 @@ theorem reserveOf_capped_le : ∀ n d, reserveOf true n d ≤ 2 * d.length := by
             omega
       · simp
 
+/-! ## … nor more than a constant, however much is buffered -/
+
+theorem reserveOf_capped_le_const : ∀ n d, reserveOf true n d ≤ 2 * reserveMax := by
+  intro n
+  induction n with
+  | zero => intro d; simp [reserveOf]
+  | succ n ih =>
+    intro d
+    cases d with
+    | nil => simp [reserveOf]
+    | cons t body =>
+      have ihs : Shrinks (parseFrame n) := fun d f r h => by have := parseFrame_shrinks n d f r h; omega
+      have hel : ∀ k r, r.length ≤ body.length →
+          reserveElemsWith (parseFrame n) (reserveOf true n) k r ≤ 2 * reserveMax := by
+        intro k r hr
+        apply reserveElemsWith_le _ _ ihs
+        intro d' hd'
+        exact ih d'
+      unfold reserveOf
+      simp only [capReq, if_true]
+      split
+      · cases hs : splitCRLF body with
+        | none => simp
+        | some lr =>
+          obtain ⟨l, r⟩ := lr
+          have hr := splitCRLF_length hs
+          simp only
+          cases hq : parseI64 l with
+          | none => simp
+          | some v =>
+            simp only
+            split
+            · simp
+            · have := hel v.toNat r (by omega)
+              simp only [reserveMax] at this ⊢
+              omega
+      split
+      · cases hs : splitCRLF body with
+        | none => simp
+        | some lr =>
+          obtain ⟨l, r⟩ := lr
+          have hr := splitCRLF_length hs
+          simp only
+          cases hq : parseU64 l with
+          | none => simp
+          | some v =>
+            simp only
+            have := hel (2 * v) r (by omega)
+            simp only [reserveMax] at this ⊢
+            omega
+      split
+      · cases hs : splitCRLF body with
+        | none => simp
+        | some lr =>
+          obtain ⟨l, r⟩ := lr
+          have hr := splitCRLF_length hs
+          simp only
+          cases hq : parseU64 l with
+          | none => simp
+          | some v =>
+            simp only
+            have := hel v r (by omega)
+            simp only [reserveMax] at this ⊢
+            omega
+      · simp
+
+
 end Ferrous
